@@ -283,7 +283,7 @@ func dupKeys(j *J) *J {
 	return out
 }
 
-const nAliasKinds = 23
+const nAliasKinds = 25
 
 // alias envelopes: other spellings a client may use; the decoders are expected to read the same
 // request from most of them (the model decides; all envelopes the model decodes to the same request
@@ -295,7 +295,7 @@ func aliasSub(t *table, o *opReq, kind int, r *rng.R, id func() string) *submiss
 		t.tree(txt, j)
 		return &submission{Transport: "post-json", Role: "alias", Label: label, HTTP: &httpEnv{Method: "POST", ContentType: ct, Params: params, Body: txt}}
 	}
-	if o.Sub && (kind < 14 || kind == 22) {
+	if o.Sub && (kind < 14 || kind >= 22) {
 		return nil
 	}
 	switch kind {
@@ -399,6 +399,34 @@ func aliasSub(t *table, o *opReq, kind int, r *rng.R, id func() string) *submiss
 		}
 		s := wsSub(t, rng.Pick(r, []string{"gws", "tws"}), "other", "dup-null", id(), j, styleCompact, "itp")
 		return &s
+	case 23:
+		// the body of a POST as a chunked stream (no Content-Length): the same request
+		fr := rng.Pick(r, []string{"chunked-1", "chunked-3", "chunked-all"})
+		if o.Vars == nil && o.OpName == "" && r.Bool() {
+			return &submission{Transport: "post-graphql", Role: "alias", Label: fr, HTTP: &httpEnv{Method: "POST", ContentType: "application/graphql", Body: o.Query, Framing: fr}}
+		}
+		s := postJSON(fr, body, styleCompact, "application/json", nil)
+		s.HTTP.Framing = fr
+		return s
+	case 24:
+		// a Content-Length that does not match the bytes sent: one short (the handler sees a prefix:
+		// for JSON a truncated value, for application/graphql another document), or larger than what
+		// arrives before the client stops (the stream ends early: a malformed envelope)
+		fr := rng.Pick(r, []string{"cl-short", "cl-long"})
+		role := "malformed"
+		if o.Vars == nil && o.OpName == "" && r.Bool() {
+			if fr == "cl-short" {
+				role = "other"
+			}
+			return &submission{Transport: "post-graphql", Role: role, Label: fr, HTTP: &httpEnv{Method: "POST", ContentType: "application/graphql", Body: o.Query, Framing: fr}}
+		}
+		txt := body.text(styleCompact)
+		if fr == "cl-short" {
+			t.bad(txt[:len(txt)-1])
+		} else {
+			t.tree(txt, body)
+		}
+		return &submission{Transport: "post-json", Role: role, Label: fr, HTTP: &httpEnv{Method: "POST", ContentType: "application/json", Body: txt, Framing: fr}}
 	case 22:
 		// persisted-query lookup of a hash that was never registered: with a storage configured the
 		// answer is PersistedQueryNotFound, without one the empty query is executed; either way an
